@@ -971,3 +971,182 @@ M.contract(HARNESS + 'harness_change_dir_validate_pre_sds',
            ensures={'success; in particular the current directory is not changed': lambda result, trace:
            svh_kind(result) is None and trace == []},
            raises_only=())
+
+
+# ----- copy SOURCE [DESTINATION]: "names a missing file in a home directory"
+from exactly_lib.impls.types.path import path_check as _path_check, path_validator as _path_validator
+from exactly_lib.impls import file_properties as _file_properties
+
+FS_MODIFYING_EVENTS = tuple(e for e in FS_EVENTS if e not in ('stat', 'exists?', 'resolve'))
+
+
+def no_effect(trace):
+    """no main step, nothing in the ghost file system / process state is changed (it may be looked at)"""
+    return not [e for e in trace if e[0] in MAIN_EVENTS or e[0] in FS_MODIFYING_EVENTS]
+
+
+class _StatResultI(Interface):
+    attrs = {'st_mode': Int}
+
+
+def _m_stat(interp, args, kwargs):
+    """os.stat(path): a look at the file system (ghost event 'stat'); the file status or OSError"""
+    interp.st.emit('stat', args[0], None)
+    if interp.st.choose(2) == 0:
+        interp.st.emit('stat:returned', args[0], True)
+        from pyvc.api import new_opaque
+        return new_opaque(interp, _StatResultI, 'stat_result')
+    interp.st.emit('stat:raised', args[0], False)
+    from pyvc.interp import PyRaise
+    raise PyRaise(FileNotFoundError())
+
+
+M.model(_os.stat, _m_stat)
+M.trust('os.stat(path) returns the status of the file or raises OSError; it changes nothing (ghost event `stat`)')
+
+
+class DescribedPathI(Interface):
+    """DescribedPath: `primitive` (a pathlib.Path, here: its string) and a describer for messages"""
+    attrs = {'primitive': Str, 'describer': Any_}
+
+
+class CheckedPathDdvI(Interface):
+    target_class = c03._PathDdv
+    methods = {'exists_pre_sds': Method(returns=Bool, pure=True),
+               'value_pre_sds__d': Method(returns=Iface(DescribedPathI), event='value-pre-sds'),
+               'value_post_sds__d': Method(returns=Iface(DescribedPathI), event='value-post-sds')}
+
+
+class CheckedPathSdvI(Interface):
+    attrs = {'references': FixedList(Any_)}
+    methods = {'resolve': Method(returns=Iface(CheckedPathDdvI), may_raise=(_mk_arbitrary,), event='resolve-arg')}
+
+
+M.contract('exactly_lib.impls.types.path.path_validator:PathDdvValidatorBase.validate_pre_sds_if_applicable',
+           params=dict(self=c03._DDV_VALIDATOR, hds=Any_), returns=Opt(Any_), inline=True,
+           ensures={'(inline) a path that exists before the sandbox is checked now; any other path is not':
+                    lambda self, trace: len(c03._checks(trace)) == (1 if self._path_ddv.exists_pre_sds() else 0)},
+           raises_only=())
+
+
+def stats(trace):
+    return [e[1] for e in trace if e[0] == 'stat']
+
+
+def _copy_embryo(source_path, destination_path):
+    if destination_path is None:
+        return copy_instr._CopySourceWithoutExplicitDestinationInstruction(source_path)
+    return copy_instr._CopySourceWithExplicitDestinationInstruction(source_path, destination_path)
+
+
+def harness_copy_validate_pre_sds(source_path, destination_path, environment):
+    """`copy SOURCE [DESTINATION]` (the two embryo classes of multi_phase/copy.py, in [setup]: what
+    EmbryoParser._parse_from_tokens builds with / without a destination)"""
+    return _setup_instruction_of(_copy_embryo(source_path, destination_path)).validate_pre_sds(environment)
+
+
+M.contract(HARNESS + 'harness_copy_validate_pre_sds',
+           params=dict(source_path=Iface(CheckedPathSdvI), destination_path=Opt(Iface(PathSdvI)),
+                       environment=Iface(PreSdsInstructionEnvI)), returns=SVH,
+           ensures={
+               'the source, as resolved with the symbols of the environment, is checked for existence now iff it can '
+               'exist before the sandbox (absolute / in a home directory): its location under the home directories of '
+               'the environment is looked at; the destination is not touched':
+                   lambda source_path, environment, trace:
+                   resolutions(trace) == [('resolve-arg', source_path, (environment.symbols,))]
+                   and ([(e[1], e[2]) for e in trace if e[0] in ('value-pre-sds', 'value-post-sds')]
+                        == [(resolved_arg(trace, source_path), (environment.hds,))]
+                        and stats(trace) == [outcome_event(trace, 'value-pre-sds')[1].primitive]
+                        if resolved_arg(trace, source_path).exists_pre_sds() else
+                        [e for e in trace if e[0] in ('value-pre-sds', 'value-post-sds', 'stat')] == []),
+               'VALIDATION_ERROR iff the source is looked for and is missing': lambda result, source_path, trace:
+               svh_kind(result) == ('VALIDATION_ERROR' if [e for e in trace if e[0] == 'stat:raised'] else None),
+               'nothing else: no main step, nothing is changed': lambda trace:
+               no_effect(trace) and steps(trace) == [],
+           },
+           raises={ArbitraryException: {}}, raises_only=())
+
+
+M.contract(P_I + 'multi_phase.copy:EmbryoParser._parse_from_tokens',
+           params=dict(self=Inst(copy_instr.EmbryoParser, _src_path_parser=Iface(TokenPathParserI),
+                                 _dst_path_parser=Iface(TokenPathParserI)), token_parser=Iface(TokensI)),
+           ensures={'the embryo of the source that was parsed, and of the destination iff one is given':
+                    lambda self, token_parser, result, trace:
+                    result.source_path is [e[2] for e in trace if e[0] == 'parse-path:returned'][0]
+                    and [e[1] for e in trace if e[0] == 'parse-path']
+                    == ([self._src_path_parser] if token_parser.is_at_eol else [self._src_path_parser,
+                                                                                 self._dst_path_parser])
+                    and (type(result) is copy_instr._CopySourceWithoutExplicitDestinationInstruction
+                         if token_parser.is_at_eol else
+                         (type(result) is copy_instr._CopySourceWithExplicitDestinationInstruction
+                          and result.destination_path is [e[2] for e in trace if e[0] == 'parse-path:returned'][1])),
+                    'nothing is validated or run': lambda trace: steps(trace) == [] and quiet(trace)},
+           raises={ArbitraryException: {}}, raises_only=())
+
+
+# ----- stdin = CONTENTS ([setup])
+
+class SetupSettingsBuilderI(Interface):
+    attrs = {'stdin': Any_}
+
+
+STDIN_INSTRUCTION = Inst(stdin_instr._Instruction, _contents=Iface(SdvOfDdvWithValidatorI))
+
+M.contract(P_I + 'setup.stdin:_Instruction.validate_pre_sds',
+           params=dict(self=STDIN_INSTRUCTION, environment=Iface(PreSdsInstructionEnvI)), returns=SVH,
+           setup=lambda interp, args, ghosts: {'arg': args['self']._contents}, ghosts=dict(arg=Any_),
+           ensures=dict(_ONE_ARG), raises={ArbitraryException: {}}, raises_only=())
+
+M.contract(P_I + 'setup.stdin:_Instruction.validate_post_setup',
+           params=dict(self=STDIN_INSTRUCTION, environment=Any_), returns=SVH,
+           ensures={'success; runs nothing': lambda result, trace: svh_kind(result) is None and trace == []},
+           raises_only=())
+
+M.contract(P_I + 'setup.stdin:_Instruction.symbol_usages', params=dict(self=STDIN_INSTRUCTION),
+           ensures={'the references of the contents; runs nothing': lambda self, result, trace:
+           result is self._contents.references and trace == []}, raises_only=())
+
+M.contract(P_I + 'setup.stdin:_Instruction.main',
+           params=dict(self=STDIN_INSTRUCTION, environment=Iface(PostSdsInstructionEnvI), settings=Any_,
+                       os_services=Any_, settings_builder=Iface(SetupSettingsBuilderI)), returns=SH,
+           ensures={'records the contents as resolved with the symbols of the environment; success; no effect':
+                    lambda self, environment, settings_builder, result, trace:
+                    sh_kind(result) is None and no_effect(trace)
+                    and resolutions(trace) == [('resolve-arg', self._contents, (environment.symbols,))]
+                    and type(settings_builder.stdin) is stdin_instr._StdinOfStringSource
+                    and settings_builder.stdin._string_source is resolved_arg(trace, self._contents)},
+           modifies={'settings_builder.stdin': Any_},
+           raises={ArbitraryException: {}}, raises_only=())
+
+
+# ----- exists [!] PATH [: FILE-MATCHER]
+
+EXISTS_INSTRUCTION = Inst(existence_of_file._Instruction, _expectation_type=Any_, _path_sdv=Iface(PathSdvI),
+                          _file_matcher=Opt(Iface(SdvOfDdvWithValidatorI)), _symbol_usages=Any_)
+
+for _method, _step, _arg in (('validate_pre_sds', 'pre', 'hds'), ('validate_post_setup', 'post', 'tcds')):
+    M.contract(P_I + 'assert_.existence_of_file:_Instruction.' + _method,
+               params=dict(self=EXISTS_INSTRUCTION, environment=Iface(PostSdsInstructionEnvI)), returns=SVH,
+               ghosts=dict(step=Const(_step), arg_name=Const(_arg)),
+               ensures={
+                   'the file matcher -- if there is one -- is validated (that step only): as resolved with the symbols '
+                   'of the environment; the path is not looked at': lambda self, environment, step, arg_name, trace:
+                   (trace == []) if self._file_matcher is None else
+                   (resolutions(trace) == [('resolve-arg', self._file_matcher, (environment.symbols,))]
+                    and steps(trace) == [('validate-' + step, resolved_arg(trace, self._file_matcher).validator,
+                                          (getattr(environment, arg_name),))]),
+                   'VALIDATION_ERROR iff it reports an error, with its message': lambda result, step, trace:
+                   verdict_of(result, trace, ('validate-' + step,)),
+                   'nothing else: no main step, no effect': lambda trace: quiet(trace),
+               },
+               raises={ArbitraryException: {}}, raises_only=())
+
+M.contract(P_I + 'assert_.existence_of_file:_Instruction.__init__',
+           params=dict(self=Inst(existence_of_file._Instruction), expectation_type=Any_, path_sdv=Iface(PathSdvI),
+                       file_matcher=Opt(Iface(SdvOfDdvWithValidatorI))),
+           ensures={'holds the file matcher given; reports the references of the path AND of the file matcher':
+                    lambda self, path_sdv, file_matcher:
+                    self._file_matcher is file_matcher and self._path_sdv is path_sdv
+                    and self.symbol_usages() == list(path_sdv.references)
+                    + ([] if file_matcher is None else list(file_matcher.references))},
+           raises_only=())
